@@ -439,7 +439,10 @@ func init() {
 		Rule: "E1 over issue / re-issue / use / expiry histories with a reference model of token acceptance on every submission; E2 battery from every distinct reached state with an outstanding token: single-bit flips of the 64 token bytes, length changes, cross-account splices, values built from storage, dead genuine tokens, alternative base64 spellings - each on a clone, followed by the genuine token on that same clone; classes = near-miss classes and accept/reject kinds hit",
 		Units: func(tier string) []engine.Unit {
 			scs := c05Scenarios(tier)
-			return e1Units(append(scs, configVariants(scs, tier, "faults:confirm(|recover-end(")...))
+			vs := configVariants(scs, tier, "faults:confirm(|recover-end(", "err500", "nomount")
+			// API mode reads the token from a JSON body: only coherent with MailRouteMethod = POST
+			vs = append(vs, configVariants(from(scs, "v24h-post"), "quick", "json")...)
+			return e1Units(append(scs, vs...))
 		},
 		Need:        []string{"recover:accepted", "confirm:accepted", "recover:rejected:rtok:dead(u1)", "near-miss:rtok:bitflip", "near-miss:ctok:bitflip", "second-use:rtok", "second-use:ctok", "near-miss:rtok:splice-own-sel+other-ver", "near-miss:rtok:dead-genuine(superseded)"},
 		Assumptions: []string{"quick tier flips every third bit (all 64 bytes touched), thorough flips all 512", "bounded depth, 3 accounts"},
